@@ -498,7 +498,7 @@ class C20(RenderProp):
     id = "C20"
     n_quick = 2000
     n_thorough = 30000
-    required_theorems = ["C20_push", "C20_pop", "C20_shift", "C20_unshift", "C20_splice", "C20_slice", "C20_length", "C20_alias_frame", "C20_splice_result_stable", "C20_sequence"]
+    required_theorems = ["C20_push", "C20_pop", "C20_shift", "C20_unshift", "C20_splice", "C20_slice", "C20_length", "C20_alias_frame", "C20_splice_result_stable", "C20_sequence", "C20_array_literal_keeps_every_entry", "C20_array_literal_allocates"]
     rule = ("random call sequences (1-12 quick / 1-40 thorough) of push/pop/shift/unshift/sort/splice(start)/slice(start)/indexOf/index/join/length over up to 5 array "
             "variables with aliasing (var b = a) and kept results (var t = a.splice(k), var c = a.slice(k), var p = s.split(d)), number or string elements, in-range "
             "arguments, plus length/charAt/indexOf/slice/split/toUpperCase/toLowerCase on an ASCII string; every variable's content and length printed after every step. "
